@@ -61,7 +61,7 @@ def run(tier, only=None, keep=False):
                     res['lines'].append('note: known finding %s no longer reproduces (%s -> %s); consider marking it fixed' % (k['id'], k['demo_call'], val))
     finally:
         if not keep: shutil.rmtree(wd, ignore_errors=True)
-    return vrun.finish(PROP, tier, int(os.environ.get('VERIF_SEED', '0') or 0), [], t0, LEVEL_TEXT, ['CrossHair/Z3 symbolic execution; "Confirmed over all paths" is the only accepted verdict'], py_results=res)
+    return vrun.finish(PROP, tier, int(os.environ.get('VERIF_SEED', '0') or 0), [], t0, LEVEL_TEXT, ['CrossHair/Z3 symbolic execution; "Confirmed over all paths" is the only accepted verdict'], py_results=res, partial=only is not None)
 
 MANIFEST = {
   'level_text': 'CrossHair (Z3) symbolic execution of the real Python aggregate classes against list/multiset/set reference models: for all bounds in small windows, all flags, and all histories of <= 3-5 operations, an operation raises exactly when EXPRESS forbids it and size/bounds/indices/uniqueness agree with the reference. Held only on "Confirmed over all paths".',
